@@ -19,7 +19,7 @@ from .values import (
     VStr, VTuple, VFunc, ObjModel,
 )
 from .extract import find_target, fn_fingerprint, ExtractError
-from .paths import Explorer, PathEnd, Budget
+from .paths import Explorer, PathEnd, Budget, timed_check
 from .symex import Interp, Env, PyRaise, ReturnSig, class_chain
 
 CVC5 = "/usr/bin/cvc5"
@@ -116,7 +116,7 @@ def generate(reg, key, budget=None):
                     closure_env = Env(None, cv)
                     closure_env.vars["__qualname__"] = key.split(":")[1].rsplit(".", 1)[0]
                 sp = it.sub(True)
-                env0 = Env(closure_env, dict(vals))
+                env0 = Env(closure_env or Env(None, {"__module__": mod}), dict(vals))
                 for k, r in enumerate(c.requires):
                     ctx.assume(truthy(sp.eval(r, env0)), f"requires:{key}[{k}]")
                 old = {k: snapshot(v) for k, v in vals.items()}
@@ -140,7 +140,7 @@ def generate(reg, key, budget=None):
                     outcome = "raise:" + pr.exc.cls
                     _check_raise(it, sp, c, key, tag, pr, vals, closure_env)
                     return outcome
-                env1 = Env(closure_env, dict(vals))
+                env1 = Env(closure_env or Env(None, {"__module__": mod}), dict(vals))
                 env1.vars["result"] = result
                 for g in it.ghost:
                     if not g.startswith("__"):
@@ -171,7 +171,7 @@ def generate(reg, key, budget=None):
 def _check_raise(it, sp, c, key, tag, pr, vals, closure_env):
     ctx = it.ctx
     chain = class_chain(getattr(pr.exc, "clsinfo", None) or pr.exc.cls)
-    env1 = Env(closure_env, dict(vals))
+    env1 = Env(closure_env or Env(None, {"__module__": it._target_mod}), dict(vals))
     env1.vars["exc"] = pr.exc
     for allowed, cond in c.raises.items():
         if allowed in chain or allowed.split(".")[-1] in chain:
@@ -216,35 +216,50 @@ def run_cvc5(smt2, timeout_s):
         os.unlink(path)
 
 
+def _z3_try(ob, timeout_s, seed=0):
+    s = z3.Solver()
+    s.set("timeout", int(timeout_s * 1000))
+    if seed:
+        s.set("random_seed", seed)
+    for f in ob.pc:
+        s.add(f)
+    s.add(z3.Not(ob.goal))
+    r = timed_check(s, timeout_s + 0.5)
+    return r, s
+
+
 def discharge_one(ob, timeout_s=10.0, use_cvc5=True):
-    """returns dict(verdict, backend, time, model)"""
+    """returns dict(verdict, backend, time, model).  Strategy: z3 with a short budget (most
+    VCs take milliseconds); if it gives up, cvc5 --strings-exp with the full budget; then z3
+    again with the full budget and another seed (z3's sequence solver is unstable on
+    identical input, cvc5 decides most of what it leaves open)."""
     t0 = time.time()
     goal = ob.goal
     if z3.is_true(goal):
         return {"verdict": "proved", "backend": "simplifier", "time": 0.0}
-    s = z3.Solver()
-    s.set("timeout", int(timeout_s * 1000))
-    for f in ob.pc:
-        s.add(f)
-    s.add(z3.Not(goal))
-    r = s.check()
-    dt = time.time() - t0
+    r, s = _z3_try(ob, min(2.0, timeout_s))
     if r == z3.unsat:
-        return {"verdict": "proved", "backend": "z3", "time": dt}
+        return {"verdict": "proved", "backend": "z3", "time": time.time() - t0}
     if r == z3.sat:
-        return {"verdict": "refuted", "backend": "z3", "time": dt, "model": s.model()}
+        return {"verdict": "refuted", "backend": "z3", "time": time.time() - t0, "model": s.model()}
     reason = s.reason_unknown()
     if use_cvc5 and os.path.exists(CVC5):
         try:
-            smt2 = s.to_smt2()
-            r2 = run_cvc5(smt2, timeout_s)
-        except Exception as e:  # noqa: BLE001
+            r2 = run_cvc5(s.to_smt2(), timeout_s)
+        except Exception:  # noqa: BLE001
             r2 = "unknown"
-        dt = time.time() - t0
         if r2 == "unsat":
-            return {"verdict": "proved", "backend": "cvc5", "time": dt}
+            return {"verdict": "proved", "backend": "cvc5", "time": time.time() - t0}
         if r2 == "sat":
-            return {"verdict": "refuted", "backend": "cvc5", "time": dt, "model": None}
+            # get a model from z3 if it can find one, else report without inputs
+            r3, s3 = _z3_try(ob, timeout_s, seed=7)
+            m = s3.model() if r3 == z3.sat else None
+            return {"verdict": "refuted", "backend": "cvc5", "time": time.time() - t0, "model": m}
+    r, s = _z3_try(ob, timeout_s, seed=7)
+    if r == z3.unsat:
+        return {"verdict": "proved", "backend": "z3", "time": time.time() - t0}
+    if r == z3.sat:
+        return {"verdict": "refuted", "backend": "z3", "time": time.time() - t0, "model": s.model()}
     return {"verdict": "unknown", "backend": "z3+cvc5", "time": time.time() - t0, "reason": reason}
 
 
@@ -365,8 +380,8 @@ def verify_function(reg, key, timeout_s=10.0, budget=None):
             s.set("timeout", 5000)
             for f in ob.pc:
                 s.add(f)
-            r = s.check()
-            if r == z3.sat:
+            r = timed_check(s, 6.0)
+            if r != z3.unsat:
                 canary_refuted += 1
             continue
         res = discharge_one(ob, timeout_s)
